@@ -134,6 +134,8 @@ struct vin {
     uint8_t  fval_null[NFILE_A];   /* ... "name =" with no value                        */
     uint8_t  ffile_null[NFILE_A];
     int64_t  numtab[8];            /* strtol/strtoll as an uninterpreted function of the text */
+    char     rname[2], renv[2];    /* (R) registry of two existing parameters: full names / variable names */
+    uint8_t  new_override;         /* (R) the second re-registration supplies an override value             */
 } vin;
 #include "verif_vin.h"
 
@@ -183,6 +185,9 @@ char *strdup(const char *s)
 #ifndef VERIF_REPLAY
 /* only reachable through the "~/" expansion, which is outside this check (strings without '~') */
 int asprintf(char **strp, const char *fmt, ...) { (void)fmt; *strp = NULL; return -1; }
+/* param_register builds the variable name of its TEMPORARY entry with snprintf; on the re-registration path
+ * that entry is destroyed again, its name is never read: the stub writes the empty string */
+int snprintf(char *str, size_t size, const char *fmt, ...) { (void)fmt; if (size > 0) str[0] = 0; return 0; }
 char *parsec_os_path(bool relative, ...) { (void)relative; return NULL; }
 #endif
 
@@ -598,4 +603,132 @@ void h_resolve(void)
                  "C38.resolve.post.default_when_nothing_else");
     }
     V_CANARY("resolve");
+}
+
+/* ------------------------------------------------------------------ */
+/* (R) re-registration keeps an explicit override on top                */
+/* ------------------------------------------------------------------ */
+/* Registry of two existing parameters of type RTYPE (full names "a" and "b", no type / component part).  Through the real public entry points: [set_<type>(idx, v1)] ; reg_<type>_name(same name,
+ * new default) -- the usual way to read a parameter by name -- ; lookup.  Then param_register on the same
+ * name again, with or without an explicit override value.
+ *   POST: re-registration returns the existing index; an existing override (flag AND value) is kept when no
+ *   new override is supplied and replaced when one is; the default is replaced by the new default; no file
+ *   value appears; the value handed back and the reported source follow the precedence
+ *   override > environment > default. */
+#ifndef RTYPE
+#define RTYPE 0
+#endif
+#ifndef RIDX
+#define RIDX 1          /* which of the two existing parameters is registered again (fixed per cbmc process) */
+#endif
+static char r_name[2][2], r_env[2][2];
+static char nd_str[SLEN], o2_str[SLEN];
+
+static bool st_is(const parsec_mca_param_storage_t *st, int k, const char *str, bool str_null)
+{
+    if (RTYPE == 0) return st->intval == vin.ival[k];
+    if (RTYPE == 1) return st->sizetval == vin.zval[k];
+    if (str_null) return st->stringval == NULL;
+    return st->stringval != NULL && st->stringval != str && str_eq(st->stringval, str);
+}
+
+void h_reregister(void)
+{
+    vin_load();
+    initialized = true; home = NULL; parsec_show_help = stub_show_help;
+    mca_params.array_items = (unsigned char *)params;
+    mca_params.array_item_sizeof = sizeof(params[0]);
+    mca_params.array_size = 2; mca_params.array_alloc_size = 2;
+    /* names and index concrete: every strlen / malloc size inside param_register is then concrete */
+    V_ASSUME(vin.index == RIDX && vin.rname[0] == 'a' && vin.rname[1] == 'b');
+    V_ASSUME(is_name(vin.renv[0]) && is_name(vin.renv[1]) && vin.renv[0] != vin.renv[1]);
+    for (int k = 0; k < 4; k++) assume_string(vin.sval[k]);
+    for (int i = 0; i < SLEN; i++) { ov_str[i] = vin.sval[K_OVERRIDE][i]; df_str[i] = vin.sval[K_DEFAULT][i];
+                                     nd_str[i] = vin.sval[K_FILE][i]; o2_str[i] = vin.sval[K_ENV][i]; }
+    for (int i = 0; i < 2; i++) {
+        PARSEC_OBJ_CONSTRUCT(&params[i], parsec_mca_param_t);
+        r_name[i][0] = 'a' + i; r_name[i][1] = 0; r_env[i][0] = vin.renv[i]; r_env[i][1] = 0;
+        params[i].mbp_type = (parsec_mca_param_type_t)RTYPE;
+        params[i].mbp_full_name = r_name[i];
+        params[i].mbp_param_name = r_name[i];
+        params[i].mbp_env_var_name = r_env[i];
+        if (RTYPE == 0) params[i].mbp_default_value.intval = vin.ival[K_DEFAULT];
+        else if (RTYPE == 1) params[i].mbp_default_value.sizetval = vin.zval[K_DEFAULT];
+        else params[i].mbp_default_value.stringval = vin.snull[K_DEFAULT] ? NULL : strdup(df_str);
+    }
+    build_env();
+    build_file_list();
+    const int idx = RIDX;
+    parsec_mca_param_t *p = &params[idx];
+    bool ov = vin.override_set != 0;
+
+    /* an explicit override, through the public setter */
+    if (ov) {
+        if (RTYPE == 0) parsec_mca_param_set_int(idx, vin.ival[K_OVERRIDE]);
+        else if (RTYPE == 1) parsec_mca_param_set_sizet(idx, vin.zval[K_OVERRIDE]);
+        else parsec_mca_param_set_string(idx, vin.snull[K_OVERRIDE] ? NULL : ov_str);
+    }
+    V_ASSERT(p->mbp_override_value_set == ov, "C38.set_override.post.flag_set_by_public_setter");
+
+    /* register the same name again (new default = the K_FILE slot of the inputs) */
+    parsec_mca_param_storage_t cur;
+    cur.sizetval = vin.storage0;
+    int rc;
+    int    cur_i = 0; size_t cur_z = 0; char *cur_s = NULL;
+    if (RTYPE == 0) { rc = parsec_mca_param_reg_int_name(NULL, r_name[idx], NULL, false, false, vin.ival[K_FILE], &cur_i); cur.intval = cur_i; }
+    else if (RTYPE == 1) { rc = parsec_mca_param_reg_sizet_name(NULL, r_name[idx], NULL, false, false, vin.zval[K_FILE], &cur_z); cur.sizetval = cur_z; }
+    else { rc = parsec_mca_param_reg_string_name(NULL, r_name[idx], NULL, false, false, vin.snull[K_FILE] ? NULL : nd_str, &cur_s); cur.stringval = cur_s; }
+
+    V_ASSERT(rc == idx, "C38.param_register.post.reregistration_returns_existing_index");
+    V_ASSERT(mca_params.array_size == 2, "C38.param_register.post.reregistration_adds_no_entry");
+    V_ASSERT(p->mbp_override_value_set == ov, "C38.param_register.post.reregistration_without_override_keeps_override_flag");
+    if (ov) {
+        if (RTYPE == 0) V_ASSERT(p->mbp_override_value.intval == vin.ival[K_OVERRIDE], "C38.param_register.post.reregistration_keeps_override_value");
+        else if (RTYPE == 1) V_ASSERT(p->mbp_override_value.sizetval == vin.zval[K_OVERRIDE], "C38.param_register.post.reregistration_keeps_override_value");
+        else V_ASSERT(vin.snull[K_OVERRIDE] ? p->mbp_override_value.stringval == NULL
+                                            : (p->mbp_override_value.stringval != NULL && str_eq(p->mbp_override_value.stringval, ov_str)),
+                      "C38.param_register.post.reregistration_keeps_override_value");
+    }
+    if (RTYPE == 0) V_ASSERT(p->mbp_default_value.intval == vin.ival[K_FILE], "C38.param_register.post.reregistration_replaces_default");
+    else if (RTYPE == 1) V_ASSERT(p->mbp_default_value.sizetval == vin.zval[K_FILE], "C38.param_register.post.reregistration_replaces_default");
+    else V_ASSERT(vin.snull[K_FILE] ? p->mbp_default_value.stringval == NULL
+                                    : (p->mbp_default_value.stringval != NULL && p->mbp_default_value.stringval != nd_str &&
+                                       str_eq(p->mbp_default_value.stringval, nd_str)),
+                  "C38.param_register.post.reregistration_replaces_default");
+    V_ASSERT(!p->mbp_file_value_set, "C38.param_register.post.reregistration_invents_no_file_value");
+    V_ASSERT(params[1 - idx].mbp_override_value_set == false && params[1 - idx].mbp_full_name == r_name[1 - idx],
+             "C38.param_register.post.other_parameter_untouched");
+
+    /* value handed back, and what a lookup by index now says: override > environment > (new) default */
+    int ehit = env_index_of(vin.renv[idx]);
+    if (ov)
+        V_ASSERT(st_is(&cur, K_OVERRIDE, ov_str, vin.snull[K_OVERRIDE] != 0), "C38.reregister.post.explicit_override_still_has_top_precedence");
+    else if (ehit >= 0)
+        V_ASSERT(RTYPE <= 1 ? value_is_number((parsec_mca_param_type_t)RTYPE, &cur, e_val[ehit])
+                            : (cur.stringval != NULL && str_eq(cur.stringval, e_val[ehit])),
+                 "C38.reregister.post.environment_beats_new_default");
+    else
+        V_ASSERT(st_is(&cur, K_FILE, nd_str, vin.snull[K_FILE] != 0), "C38.reregister.post.new_default_when_nothing_else");
+    parsec_mca_param_source_t src = MCA_PARAM_SOURCE_MAX;
+    V_ASSERT(parsec_mca_param_lookup_source(idx, &src, NULL) == PARSEC_SUCCESS, "C38.reregister.post.lookup_succeeds");
+    V_ASSERT(src == (ov ? MCA_PARAM_SOURCE_OVERRIDE : ehit >= 0 ? MCA_PARAM_SOURCE_ENV : MCA_PARAM_SOURCE_DEFAULT),
+             "C38.reregister.post.source_override_then_environment_then_default");
+
+    /* register once more through param_register itself, this time possibly WITH an override value (K_ENV slot) */
+    parsec_mca_param_storage_t dv, o2, got;
+    if (RTYPE == 0) { dv.intval = vin.ival[K_FILE]; o2.intval = vin.ival[K_ENV]; }
+    else if (RTYPE == 1) { dv.sizetval = vin.zval[K_FILE]; o2.sizetval = vin.zval[K_ENV]; }
+    else { dv.stringval = vin.snull[K_FILE] ? NULL : nd_str; o2.stringval = vin.snull[K_ENV] ? NULL : o2_str; }
+    got.sizetval = vin.storage0;
+    rc = param_register(NULL, NULL, r_name[idx], NULL, (parsec_mca_param_type_t)RTYPE, false, false,
+                        &dv, NULL, vin.new_override ? &o2 : NULL, &got);
+    V_ASSERT(rc == idx, "C38.param_register.post.second_reregistration_returns_existing_index");
+    if (vin.new_override) {
+        V_ASSERT(p->mbp_override_value_set, "C38.param_register.post.supplied_override_sets_flag");
+        V_ASSERT(st_is(&got, K_ENV, o2_str, vin.snull[K_ENV] != 0), "C38.param_register.post.supplied_override_replaces_value_and_wins");
+    } else {
+        V_ASSERT(p->mbp_override_value_set == ov, "C38.param_register.post.second_reregistration_keeps_override_flag");
+        if (ov) V_ASSERT(st_is(&got, K_OVERRIDE, ov_str, vin.snull[K_OVERRIDE] != 0), "C38.reregister.post.override_survives_repeated_reregistration");
+    }
+    V_CANARY("reregister");
 }
